@@ -545,6 +545,22 @@ func RunPaths(t *core.T) {
 		t.Violate("encode-paths-agree", "wkb.MarshalToHex", "", "MarshalToHex differs from hex(Marshal) for %s", gen.Describe(g))
 		return
 	}
+	if t.Guard("ewkb.MarshalToHex", func() { hx, err3 = ewkb.MarshalToHex(g, srid, order) }) {
+		return
+	}
+	if err3 != nil || hx != hex.EncodeToString(ext) {
+		t.Violate("encode-paths-agree", "ewkb.MarshalToHex", "", "MarshalToHex differs from hex(Marshal) for %s", gen.Describe(g))
+		return
+	}
+	var must []byte
+	if t.Guard("wkb.MustMarshal", func() { must = wkb.MustMarshal(g, order) }) || !bytes.Equal(must, plain) {
+		t.Violate("encode-paths-agree", "wkb.MustMarshal", "", "MustMarshal differs from Marshal for %s", gen.Describe(g))
+		return
+	}
+	if t.Guard("ewkb.MustMarshal", func() { must = ewkb.MustMarshal(g, srid, order) }) || !bytes.Equal(must, ext) {
+		t.Violate("encode-paths-agree", "ewkb.MustMarshal", "", "MustMarshal differs from Marshal for %s", gen.Describe(g))
+		return
+	}
 	t.Op()
 
 	// ---- byte-slice decoder
